@@ -142,8 +142,8 @@ def canonStr (s : String) : String :=
   "s:\"" ++ String.ofList ((escapeLine s).toList.flatMap fun ch =>
     if ch = '"' then ['\\', 'q'] else if ch = ' ' then ['\\', '_'] else [ch]) ++ "\""
 
-/-- canonical rendering of a heap object; the first argument bounds the nesting of elements
-    (as the Rust `canon` does), the spine loop has its own fuel -/
+/-- canonical rendering of a heap object as the harness's `canon_api` does it: at most `n` levels of nested
+    elements, at most 12 elements per list -/
 def canonH (h : Heap) : Nat → Ref → String
   | 0, _ => "#<deep>"
   | n + 1, r =>
@@ -154,17 +154,19 @@ def canonH (h : Heap) : Nat → Ref → String
     | .float b => if f64IsNaN b then "f:nan" else "f:" ++ hex16 b
     | .str s => canonStr s
     | .sym nm => "y:" ++ String.ofList ((escapeLine nm).toList.flatMap fun ch => if ch = ' ' then ['\\', '_'] else [ch])
-    | .cons a d => "(" ++ canonH h n a ++ rest h n (h.cells.size + 2) d
+    | .cons a d => "(" ++ canonH h n a ++ rest h n 1 (h.cells.size + 2) d
 where
-  rest (h : Heap) (n : Nat) : Nat → Ref → String
+  rest (h : Heap) (n : Nat) (count : Nat) : Nat → Ref → String
     | 0, _ => ")"
     | fuel + 1, r =>
       match h.get r with
       | .nil => ")"
-      | .cons a d => " " ++ canonH h n a ++ rest h n fuel d
+      | .cons a d =>
+        if count == 12 then " ...)"
+        else " " ++ canonH h n a ++ rest h n (count + 1) fuel d
       | _ => " . " ++ canonH h n r ++ ")"
 
-def showRef (s : State) (r : Ref) : String := canonH s.heap 7 r
+def showRef (s : State) (r : Ref) : String := canonH s.heap 4 r
 
 def newHandle (s : State) (r : Ref) : State × String :=
   ({ s with handles := s.handles.push r }, "H " ++ toString s.handles.size)
